@@ -340,6 +340,8 @@ pub struct Report {
     pub required: Vec<String>,
     pub exhaustive: Option<bool>,
     pub extra: BTreeMap<String, Value>,
+    /// non-trivial cases counted exactly by a duplicate-free enumeration (added to the hash-set size)
+    pub counted_nontrivial: u64,
     pub start: Instant,
 }
 
@@ -355,6 +357,7 @@ impl Report {
             required: vec![],
             exhaustive: None,
             extra: BTreeMap::new(),
+            counted_nontrivial: 0,
             start: Instant::now(),
         }
     }
@@ -434,7 +437,7 @@ pub fn finish(mut rep: Report, ctx: &Ctx, known: &KnownFindings) -> i32 {
     let classes: BTreeMap<String, u64> = rep.stats.classes.clone();
     let mut coverage = json!({
         "evaluations": rep.stats.evals,
-        "distinct_nontrivial": rep.stats.nontrivial.len(),
+        "distinct_nontrivial": rep.stats.nontrivial.len() as u64 + rep.counted_nontrivial,
         "rule": rep.rule,
         "samples": samples,
         "classes": classes,
@@ -490,7 +493,7 @@ pub fn finish(mut rep: Report, ctx: &Ctx, known: &KnownFindings) -> i32 {
         id,
         ctx.tier.name(),
         rep.stats.evals,
-        rep.stats.nontrivial.len(),
+        rep.stats.nontrivial.len() as u64 + rep.counted_nontrivial,
         rep.stats.excluded,
         rep.founds.len(),
         wall
